@@ -17,7 +17,7 @@ OBLIGATIONS = ["NiftyVerif.C29." + t for t in (
     "wiener_excitation_response", "wiener_cov", "wiener_cov_const", "wiener_AAt",
     "iwp_transition", "iwp_step_noise", "iwp_state_indep", "iwp_cov_recursion", "iwp_cross_cov", "iwp_cov_closed_form",
     "scalarGM_var_step", "scalarGM_cov_lag", "ou_stationary", "ou_var_step", "ouDrift_prod", "ou_cov", "ou_cov_const",
-    "generic_eq_wiener", "generic_eq_scalar", "generic_eq_iwp")]
+    "generic_eq_wiener", "generic_eq_scalar", "generic_eq_iwp", "generic_cov_recursion", "generic_cross_cov")]
 RULE = ("one case = (process in wiener/iwp/ou/generic, grid dt (non-uniform or scalar), sigma/gamma/asperity scalar or "
         "per-step, initial state, evaluation point xi, direct function or GaussMarkovProcess wrapper); class E = "
         "perfect-square dt and dyadic parameters (exact equality with the rational model), class T = random floats "
